@@ -162,6 +162,15 @@ def run(ctx):
     act = any(b.call_blocks(AA + 'state::AllocationQueue::active_allocations') for b in pqc)
     rma = any(b.call_blocks(AA + 'queue::QueueHandler::remove_allocation') for b in pqc)
     ctx.ob('R18.5', 'prepare_queue_cleanup|active only, one each', act and rma, 'remove_allocation is issued once per ACTIVE allocation', pqc[0].loc())
+    filt = [b.loc(bi) for b in pqc for bi in b.call_blocks(lambda c: c.endswith('Iterator::filter') or c.endswith('Iterator::filter_map') or c.endswith('Iterator::skip_while') or c.endswith('Iterator::take_while'))]
+    uncond = True
+    for b in pqc:
+        for bi in b.call_blocks(AA + 'queue::QueueHandler::remove_allocation'):
+            okm, _ = must_pass(b, [0], [bi])
+            if not okm:
+                uncond = False
+    ctx.ob('R18.5', 'prepare_queue_cleanup|every active allocation, unconditionally', not filt and uncond,
+           f'no further filter decides which active allocations are cancelled (extra filters at {filt}); an allocation that is Running without a connected worker is still active and must be cancelled', pqc[0].loc())
     arq = prog.body(AA + 'state::AutoAllocState::remove_queue')
     touch = any(b.path in prog.with_closures(arq.path) for o, b, bi, st in field_read_sites(prog, AA + 'state::AutoAllocState', 'allocation_to_queue'))
     ctx.ob('R18.5', 'AutoAllocState::remove_queue|forgets index', touch, 'removing a queue also removes its allocation_to_queue entries', arq.loc())
